@@ -155,6 +155,31 @@ enum Operation {
     Read { paths: Vec<Path>, fabric_filtered: bool },
     Write { paths: Vec<Path>, timed: Timed },
     Invoke { paths: Vec<Path>, timed: Timed },
+    /// one write carried by several WriteRequest messages on one exchange; every message has its own
+    /// TimedRequest flag and its own arrival time relative to the window
+    ChunkedWrite { chunks: Vec<(Vec<Path>, Timed)> },
+}
+
+/// Window of a chunked write and, per chunk, (delay before it, its TimedRequest flag).
+fn chunk_params(chunks: &[(Vec<Path>, Timed)]) -> (Option<u16>, Vec<(u64, bool)>) {
+    let window = if chunks.iter().any(|c| c.1 == Timed::Expired) {
+        Some(300u16)
+    } else if chunks.iter().any(|c| matches!(c.1, Timed::Yes | Timed::WindowOnly)) {
+        Some(5000)
+    } else {
+        None
+    };
+    let per = chunks
+        .iter()
+        .map(|c| match c.1 {
+            Timed::No => (0, false),
+            Timed::Yes => (0, true),
+            Timed::Expired => (600, true),
+            Timed::FlagOnly => (0, true),
+            Timed::WindowOnly => (0, false),
+        })
+        .collect();
+    (window, per)
 }
 
 #[derive(Clone, Debug)]
@@ -253,6 +278,8 @@ struct World {
     net: Net,
     dm: TestDm,
     answer: Rc<RefCell<Option<Answer>>>,
+    /// answers to the chunks of a chunked write, each with the length of the handler log at that moment
+    chunk_answers: Rc<RefCell<Vec<(Answer, usize)>>>,
     _keep: Vec<Box<dyn std::any::Any>>,
     d: Owned<Matter<'static>>,
     a: Owned<Matter<'static>>,
@@ -307,6 +334,7 @@ fn build(spec: &Spec, node: &NodeSpec) -> World {
 
     let dm = TestDm::new(node.clone());
     let answer: Rc<RefCell<Option<Answer>>> = Rc::new(RefCell::new(None));
+    let chunk_answers: Rc<RefCell<Vec<(Answer, usize)>>> = Rc::new(RefCell::new(Vec::new()));
     let mut exec = Exec::new();
     let buffers: Owned<MatterBuffers> = Owned::new(MatterBuffers::new());
     let state = Owned::new(InteractionModelState::<DummyNetworks, 3, 1024>::new(DummyNetworks));
@@ -326,6 +354,7 @@ fn build(spec: &Spec, node: &NodeSpec) -> World {
     {
         let (send, recv) = (net.end(0), net.end(0));
         let ans = answer.clone();
+        let (cans, dm3) = (chunk_answers.clone(), dm.clone());
         let op = spec.op.clone();
         let req = spec.req;
         exec.spawn("A", async move {
@@ -349,6 +378,25 @@ fn build(spec: &Spec, node: &NodeSpec) -> World {
                             let (t, delay, flag) = timed_params(*timed);
                             imdrv::do_request(&mut ex, t, delay, imdrv::OP_INVOKE_REQ, &imdrv::invoke_request(paths, flag)).await
                         }
+                        Operation::ChunkedWrite { chunks } => {
+                            let (window, per) = chunk_params(chunks);
+                            let n = chunks.len();
+                            let msgs: Vec<(u64, Vec<u8>)> = chunks
+                                .iter()
+                                .zip(&per)
+                                .enumerate()
+                                .map(|(i, ((paths, _), (delay, flag)))| {
+                                    let items: Vec<(Path, Option<u32>, u32)> = paths.iter().enumerate().map(|(k, p)| (*p, None, 0xAC00 + (i * 16 + k) as u32)).collect();
+                                    (*delay, imdrv::write_request_chunk(&items, *flag, i + 1 < n))
+                                })
+                                .collect();
+                            let err = imdrv::do_write_chunks(&mut ex, window, &msgs, |a| {
+                                let l = dm3.log.borrow().len();
+                                cans.borrow_mut().push((a, l));
+                            })
+                            .await;
+                            Answer { error: err, ..Default::default() }
+                        }
                     },
                 };
                 *ans.borrow_mut() = Some(r);
@@ -357,7 +405,7 @@ fn build(spec: &Spec, node: &NodeSpec) -> World {
             let _ = select(ma.run(&c, send, recv, NoNetwork), client).await;
         });
     }
-    World { exec, net, dm, answer, _keep: vec![Box::new(buffers), Box::new(state)], d, a }
+    World { exec, net, dm, answer, chunk_answers, _keep: vec![Box::new(buffers), Box::new(state)], d, a }
 }
 
 fn timed_params(t: Timed) -> (Option<u16>, u64, bool) {
@@ -370,7 +418,9 @@ fn timed_params(t: Timed) -> (Option<u16>, u64, bool) {
     }
 }
 
-fn run(spec: &Spec, node: &NodeSpec) -> Result<(Answer, Vec<Op>), String> {
+type Chunks = Vec<(Answer, usize)>;
+
+fn run(spec: &Spec, node: &NodeSpec) -> Result<(Answer, Vec<Op>, Chunks), String> {
     let mut w = build(spec, node);
     w.exec.run()?;
     for _ in 0..4000 {
@@ -393,13 +443,46 @@ fn run(spec: &Spec, node: &NodeSpec) -> Result<(Answer, Vec<Op>), String> {
     let ans = w.answer.borrow().clone().ok_or("the client never got an answer")?;
     let log = w.dm.log.borrow().clone();
     let _ = (&w.d, &w.a);
-    Ok((ans, log))
+    let chunks = w.chunk_answers.borrow().clone();
+    Ok((ans, log, chunks))
 }
 
 // ------------------------------------------------------------------------------------ oracle
 
-fn judge(spec: &Spec, node: &NodeSpec, ans: &Answer, log: &[Op]) -> Vec<(String, String)> {
+fn judge(spec: &Spec, node: &NodeSpec, ans: &Answer, log: &[Op], chunk_answers: &Chunks) -> Vec<(String, String)> {
     let mut v = Vec::new();
+    if let Operation::ChunkedWrite { chunks } = &spec.op {
+        // every message of the write is judged as a write of its own: with the window and flag that hold for
+        // it when it arrives, against the handler calls made between the previous answer and its answer
+        if let Some(e) = &ans.error {
+            v.push(("C06:chunked-write:interaction-failed".into(), e.to_string()));
+        }
+        let mut from = 0usize;
+        let mut refused = false;
+        for (i, (paths, timed)) in chunks.iter().enumerate() {
+            let Some((a, upto)) = chunk_answers.get(i) else {
+                if !refused && ans.error.is_none() {
+                    v.push(("C06:chunked-write:message-not-answered".into(), format!("message {} of {} got no answer", i + 1, chunks.len())));
+                }
+                break;
+            };
+            if refused {
+                v.push(("C06:chunked-write:continued-after-a-refusal".into(), format!("message {} answered after a status response had ended the write", i + 1)));
+            }
+            let sub = Spec { node: spec.node, acl: spec.acl, req: spec.req, op: Operation::Write { paths: paths.clone(), timed: *timed } };
+            for (sig, what) in judge(&sub, node, a, &log[from.min(log.len())..(*upto).min(log.len())], &Vec::new()) {
+                v.push((sig.replacen("C06:write:", "C06:chunked-write:", 1), format!("message {} of {}: {}", i + 1, chunks.len(), what)));
+            }
+            if a.status_response.is_some() {
+                refused = true;
+            }
+            from = *upto;
+        }
+        if from < log.len() {
+            v.push(("C06:chunked-write:handler-called-after-the-last-answer".into(), format!("{:x?}", &log[from..])));
+        }
+        return v;
+    }
     let fab = match spec.req {
         Requester::Case1 => 1u8,
         Requester::Case2 => 2,
@@ -529,6 +612,7 @@ fn judge(spec: &Spec, node: &NodeSpec, ans: &Answer, log: &[Op]) -> Vec<(String,
                 }
             }
         }
+        Operation::ChunkedWrite { .. } => unreachable!(),
         Operation::Write { paths, timed } | Operation::Invoke { paths, timed } => {
             let write = matches!(spec.op, Operation::Write { .. });
             let kind = if write { "write" } else { "invoke" };
@@ -748,6 +832,26 @@ fn operations(tier: Tier) -> Vec<Operation> {
         ops.push(Operation::Read { paths: vec![Path::new(Some(1), Some(CL_A), None), Path::new(Some(1), Some(CL_A), Some(at))], fabric_filtered: true });
         ops.push(Operation::Read { paths: vec![Path::new(None, None, Some(0xFFFD)), Path::new(Some(2), Some(CL_B), Some(0xFFFD)), Path::new(Some(1), Some(CL_A), Some(at))], fabric_filtered: true });
     }
+    // writes carried by two or three messages: the timed-only attribute in a later message, with every
+    // combination of window and flag for that message
+    {
+        let o = |at: u32| vec![Path::new(Some(1), Some(CL_A), Some(at))];
+        let shapes: Vec<Vec<(Vec<Path>, Timed)>> = vec![
+            vec![(o(W_VO), Timed::No), (o(T_VO), Timed::No)],
+            vec![(o(W_VO), Timed::No), (o(T_VO), Timed::FlagOnly)],
+            vec![(o(W_VO), Timed::Yes), (o(T_VO), Timed::Yes)],
+            vec![(o(W_VO), Timed::Yes), (o(T_VO), Timed::Expired)],
+            vec![(o(W_VO), Timed::Yes), (o(T_VO), Timed::WindowOnly)],
+            vec![(o(T_VO), Timed::Yes), (o(T_VO), Timed::Expired)],
+            vec![(o(T_VO), Timed::No), (o(W_VO), Timed::No), (o(T_VO), Timed::FlagOnly)],
+            vec![(o(W_VO), Timed::Yes), (o(W_VA), Timed::Yes), (o(T_VO), Timed::Expired)],
+            vec![(o(W_VO), Timed::Yes), (o(T_VO), Timed::Yes), (o(T_VO), Timed::WindowOnly)],
+            vec![(vec![Path::new(None, Some(CL_A), Some(W_VO))], Timed::No), (vec![Path::new(None, Some(CL_A), Some(T_VO))], Timed::FlagOnly)],
+        ];
+        for chunks in shapes {
+            ops.push(Operation::ChunkedWrite { chunks });
+        }
+    }
     // two writes / two invocations in one request
     for t in [Timed::No, Timed::Yes] {
         ops.push(Operation::Write { paths: vec![Path::new(Some(1), Some(CL_A), Some(W_VO)), Path::new(Some(1), Some(CL_A), Some(W_VA))], timed: t });
@@ -817,12 +921,15 @@ pub fn run_check(ctx: &Ctx) -> i32 {
                 eprintln!("MACHINERY: {}", e);
                 return 2;
             }
-            Ok((ans, log)) => {
+            Ok((ans, log, chunks)) => {
+                for (i, (a, upto)) in chunks.iter().enumerate() {
+                    println!("message {}: items {:x?} status response {:x?} error {:?}; handler log length then {}", i + 1, a.items, a.status_response, a.error, upto);
+                }
                 println!("answer items {:x?}\nstatus response {:x?} error {:?}\nhandler log {:x?}", ans.items, ans.status_response, ans.error, log);
                 for (op, m) in &ans.messages {
                     println!("message opcode {}: {}", op, common::hex(m));
                 }
-                for (sig, what) in judge(&spec, &nodes_v[spec.node].1, &ans, &log) {
+                for (sig, what) in judge(&spec, &nodes_v[spec.node].1, &ans, &log, &chunks) {
                     println!("  {} {}", sig, what);
                     report.violation(sig, what, spec_json(&spec));
                 }
@@ -830,10 +937,11 @@ pub fn run_check(ctx: &Ctx) -> i32 {
         }
         return common::finish(ctx, report, Evidence::new("exploration"));
     }
-    let results: Vec<Result<Result<(Answer, Vec<Op>), String>, common::Panic>> = specs.par_iter().map(|s| common::catch(|| run(s, &nodes_v[s.node].1))).collect();
+    let results: Vec<Result<Result<(Answer, Vec<Op>, Chunks), String>, common::Panic>> = specs.par_iter().map(|s| common::catch(|| run(s, &nodes_v[s.node].1))).collect();
     let mut report = Report::new();
     let mut outcomes: BTreeMap<String, u64> = BTreeMap::new();
     let (mut runs, mut data_items, mut effects, mut statuses) = (0u64, 0u64, 0u64, 0u64);
+    let (mut chunked, mut chunk_refusals) = (0u64, 0u64);
     for (s, r) in specs.iter().zip(results) {
         match r {
             Err(p) => report.violation(format!("C06:panic:{}", p.class()), format!("{}: {}", spec_json(s), p), spec_json(s)),
@@ -841,13 +949,16 @@ pub fn run_check(ctx: &Ctx) -> i32 {
                 // a client that never gets an answer is a finding of its own
                 report.violation("C06:no-answer".to_string(), format!("{}: {}", spec_json(s), e), spec_json(s));
             }
-            Ok(Ok((ans, log))) => {
+            Ok(Ok((ans, log, chunks))) => {
                 runs += 1;
+                chunked += chunks.len() as u64;
+                chunk_refusals += chunks.iter().filter(|c| c.0.status_response.is_some()).count() as u64;
+                statuses += chunks.iter().map(|c| c.0.items.iter().filter(|i| matches!(i, Item::Status { .. })).count() as u64).sum::<u64>();
                 data_items += ans.items.iter().filter(|i| matches!(i, Item::Data { .. } | Item::CmdData { .. })).count() as u64;
                 statuses += ans.items.iter().filter(|i| matches!(i, Item::Status { .. })).count() as u64;
                 effects += log.iter().filter(|o| !matches!(o, Op::Read { .. })).count() as u64;
                 *outcomes.entry(format!("{:?}", ans.items.iter().map(|i| std::mem::discriminant(i)).collect::<Vec<_>>().len())).or_default() += 1;
-                for (sig, what) in judge(s, &nodes_v[s.node].1, &ans, &log) {
+                for (sig, what) in judge(s, &nodes_v[s.node].1, &ans, &log, &chunks) {
                     report.violation(sig, format!("{}: {}", spec_json(s), what), spec_json(s));
                 }
             }
@@ -866,11 +977,11 @@ pub fn run_check(ctx: &Ctx) -> i32 {
         .set("distinct_nontrivial", json!(outcomes.len() as u64 + 2))
         .set("rule", json!("for 2 node compositions x the access-control catalog (privilege level none/view/operate/manage/admin x target shape all / endpoint / cluster / endpoint+cluster / two targets) x 3 requesters (CASE subject of the entry, PASE, CASE of another fabric) x the operation catalog (reads of every path over endpoint {*,0,1,2,absent} x cluster {*,A,B,absent} x attribute {*, 5 access classes, global, absent} fabric-filtered or not, and lists of two paths in both orders; writes and invocations of every concrete and endpoint-wildcard path x {untimed, timed, window expired, flag without window, window without flag}; multi-element requests): the data returned, the handler calls and the statuses must equal the reference derived from the node composition, the ACL and the access declarations"))
         .set("samples", json!([spec_json(&specs[0]), spec_json(&specs[specs.len() / 2])]))
-        .set("vacuity", json!({"runs": runs, "data_items_returned": data_items, "writes_and_invocations_observed": effects, "statuses_returned": statuses}))
+        .set("vacuity", json!({"runs": runs, "data_items_returned": data_items, "writes_and_invocations_observed": effects, "statuses_returned": statuses, "messages_of_chunked_writes_answered": chunked, "chunked_write_messages_refused_as_a_whole": chunk_refusals}))
         .set("exhaustive_within_bound", json!(true));
     ev.assume("the access check function itself over the full ACL space is C05's subject; event reads and event reports of subscriptions are judged in the events world (see 'events')");
     ev.assume("a concrete path to an absent element may be answered with 'unsupported access' instead of the specific 'unsupported ...' status when the requester has no privilege on the target");
-    if report.violations.is_empty() && (runs == 0 || data_items == 0 || effects == 0 || statuses == 0) {
+    if report.violations.is_empty() && (runs == 0 || data_items == 0 || effects == 0 || statuses == 0 || chunked == 0 || chunk_refusals == 0) {
         eprintln!("MACHINERY: vacuous C06 run ({} runs, {} data, {} effects, {} statuses)", runs, data_items, effects, statuses);
         return 2;
     }
